@@ -175,8 +175,48 @@ func TestVerifC30Readers(t *testing.T) {
 		"checksum_alg is normalised by trim+lowercase before choosing the reference algorithm, as the envelope format describes",
 		"the Consumer has no size limit to configure; the limit part is checked on the Resolver only")
 
-	n := r.N(6000, 150000)
 	ctx := context.Background()
+	if rp := verifkit.Replay(); rp != nil {
+		inner, _ := rp["replay"].(map[string]any)
+		if inner == nil {
+			t.Fatalf("VERIF_REPLAY: no replay object")
+		}
+		value := []byte(fmt.Sprint(inner["envelope"]))
+		stored, _ := hex.DecodeString(fmt.Sprint(inner["stored_hex"]))
+		maxSize := int64(0)
+		if f, ok := inner["max_size"].(float64); ok {
+			maxSize = int64(f)
+		}
+		env, err := DecodeEnvelope(value)
+		if err != nil {
+			t.Fatalf("VERIF_REPLAY: envelope does not decode: %v", err)
+		}
+		st := &c30Store{objects: map[string][]byte{env.Key: stored}}
+		var got []byte
+		var returned bool
+		switch fmt.Sprint(inner["reader"]) {
+		case "resolver":
+			res, isEnv, err := NewResolver(ResolverConfig{MaxSize: maxSize, ValidateChecksum: true}, st).Resolve(ctx, value)
+			got, returned = res.Payload, err == nil && isEnv
+		case "consumer":
+			e, blob, err := NewConsumer(st).Unwrap(ctx, value)
+			got, returned = blob, err == nil && e != nil
+		default:
+			blob, err := NewRecord(value, NewConsumer(st)).Value(ctx)
+			got, returned = blob, err == nil
+		}
+		r.Case("replay", true)
+		r.Case("replay-2", true)
+		r.Sample(inner)
+		if returned && !c30Declared(env).matches(got) {
+			r.Violation("blob_returned_without_matching_declared_checksum", "replayed witness still returns an unverified blob", inner)
+		}
+		if returned && fmt.Sprint(inner["reader"]) == "resolver" && maxSize > 0 && int64(len(got)) > maxSize {
+			r.Violation("blob_returned_over_max_size", "replayed witness still returns an oversized blob", inner)
+		}
+		return
+	}
+	n := r.N(6000, 150000)
 	for ci := 0; ci < n; ci++ {
 		rng := r.Rand(ci)
 		// blob
